@@ -88,9 +88,8 @@ func c01Check(c *C01Case) (msg string, class string) {
 			fm[name] = []byte(in)
 			args = append(args, name)
 		}
-		// (the tool's other modes, as its usage text lists them: -o, and the two that print the
-		// tokens / the syntax tree of the program and the selectors instead of running them)
-		for _, mode := range []string{"", "-o", "-dbg-ast", "-dbg-lex"} {
+		// (the -dbg-ast / -dbg-lex developer flags are outside C01's claim and are not run)
+		for _, mode := range []string{"", "-o"} {
 			if !ok {
 				break
 			}
@@ -138,7 +137,7 @@ func c01Check(c *C01Case) (msg string, class string) {
 	return "", class
 }
 
-// ---- flat, very long program texts (through the binary only: a stack overflow cannot be recovered from) ----
+// ---- flat, long program texts (through the binary only: a stack overflow cannot be recovered from) ----
 
 type C01Flat struct {
 	Shape string `json:"shape"`
@@ -487,17 +486,20 @@ func TestC01(t *testing.T) {
 		}
 	}
 	rec.Exhaustive("G2: control keyword x place x wrapper x input (complete)")
-	// G4: flat texts of 10^4 .. 1.2 * 10^7 repetitions (blank lines, comment lines, statements,
-	// rules, elements, ...) through the binary
+	// G4: flat texts (blank lines, comment lines, statements, rules, elements, ... repeated
+	// thousands of times) up to the 64 KiB that C01 speaks of, through the binary
 	if run.CLIBinary() != "" {
 		for i, sh := range c01FlatShapes {
 			if i%nshards != shard {
 				continue
 			}
-			for _, n := range []int{12000, 1200000, 12000000} {
+			for _, n := range []int{1200, 12000, 24000, 60000} {
 				c := &C01Flat{Shape: sh, N: n}
+				if text, _, _ := c01FlatText(c); len(text) > 64<<10 {
+					continue // beyond the claim
+				}
 				msg := c01FlatCheck(c)
-				rec.Case(fmt.Sprintf("flat %s %d", sh, n), n >= 1000000, "G4-flat-long-text", "flat:"+sh)
+				rec.Case(fmt.Sprintf("flat %s %d", sh, n), n >= 12000, "G4-flat-long-text", "flat:"+sh)
 				if msg != "" {
 					rec.Violation("flat-text", c, "("+sh+")", msg)
 					break
